@@ -11,8 +11,8 @@ types = [
  ("Bitmask","int32","0, tag, v","0, tag","x == v","","2","4"),
  ("DateTime","time.Time","tag, v","tag","unix(x) == unix(v)","","9","8"),
  ("Interval","time.Duration","tag, v","tag","x == v"," && 0 <= v && int64(v)%1000000000 == 0 && int64(v)/1000000000 < 1<<32","10","4"),
- ("TextString","string","tag, v","tag","bytes_eq(x, v)"," && len(v) < 1<<31","7","len(v)"),
- ("ByteString","[]byte","tag, v","tag","bytes_eq(x, v)"," && len(v) < 1<<31","8","len(v)"),
+ ("TextString","string","tag, v","tag","len(x) == len(v) && bytes_eq(x, wb[8:8+len(v)]) && bytes_eq(wb[8:8+len(v)], v)"," && len(v) < 1<<31","7","len(v)"),
+ ("ByteString","[]byte","tag, v","tag","len(x) == len(v) && bytes_eq(x, wb[8:8+len(v)]) && bytes_eq(wb[8:8+len(v)], v)"," && len(v) < 1<<31","8","len(v)"),
 ]
 zero={"int32":"0","int64":"0","uint32":"0","bool":"false","time.Time":"time.Time{}","time.Duration":"0","string":'""',"[]byte":"nil"}
 out=['''//go:build verif
@@ -47,6 +47,20 @@ var _ = big.NewInt
 
 func cutItem(b []byte, tag int, ty byte, n int) {}
 
+//@ lemma cutBytes
+//@   requires len(b) >= 8+len(v) && bytes_eq(b[8:8+len(v)], v)
+//@   ensures len(b) >= 8+len(v) && bytes_eq(b[8:8+len(v)], v)
+//@   pure
+
+func cutBytes(b []byte, v []byte) {}
+
+//@ lemma cutText
+//@   requires len(b) >= 8+len(v) && bytes_eq(b[8:8+len(v)], v)
+//@   ensures len(b) >= 8+len(v) && bytes_eq(b[8:8+len(v)], v)
+//@   pure
+
+func cutText(b []byte, v string) {}
+
 //@ lemma cutTail
 //@   requires 0 <= o && o <= len(b) && len(b)-o == len(rest) && bytes_eq(b[o:], rest) && hdOK(rest)
 //@   ensures hdOK(b[o:]) && bytes_eq(b[o:], rest)
@@ -66,28 +80,35 @@ func lemmaWholeSeconds(v int64) {}
 ''']
 for (n,gt,wa,ra,eq,req,ty,ln) in types:
     pre = "\tlemmaWholeSeconds(int64(v))\n" if n=="Interval" else ""
-    out.append(f'''//@ lemma lemmaRT{n}
+    cutv = {"TextString": "\tcutText(w.buf, v)\n", "ByteString": "\tcutBytes(w.buf, v)\n"}.get(n, "")
+    out.append(f'''// The reader is left exactly at the bytes that followed: `out` is the suffix wb[o:] of the written buffer
+// (same array, offset and length) and that suffix holds the bytes of `rest`.
+//
+//@ lemma lemmaRT{n}
 //@   requires 0 <= tag && tag < 1<<24 && hdOK(rest){req}
-//@   ensures err == nil && {eq} && len(out) == len(rest) && bytes_eq(out, rest)
+//@   ensures err == nil && {eq} && len(out) == len(rest)
+//@   ensures 0 <= o && o <= len(wb) && arr(out) == arr(wb) && off(out) == off(wb)+o && len(out) == len(wb)-o && bytes_eq(wb[o:], rest)
 
-func lemmaRT{n}(tag int, v {gt}, rest []byte) (x {gt}, err error, out []byte) {{
+func lemmaRT{n}(tag int, v {gt}, rest []byte) (x {gt}, err error, out, wb []byte, o int) {{
 {pre}	w := &ttlvWriter{{}}
 	w.{n}({wa})
-	o := len(w.buf)
+	o = len(w.buf)
 	w.buf = append(w.buf, rest...)
 	cutItem(w.buf, tag, {ty}, {ln})
-	cutTail(w.buf, o, rest)
+{cutv}	cutTail(w.buf, o, rest)
 	dec, err := newTTLVReader(w.buf)
 	if err != nil {{
-		return {zero[gt]}, err, nil
+		return {zero[gt]}, err, nil, w.buf, o
 	}}
 	x, err = dec.{n}({ra})
-	return x, err, dec.buf
+	return x, err, dec.buf, w.buf, o
 }}
 ''')
     if eq=="x == v": eq2="v2 == v1"
     elif eq.startswith("unix"): eq2="unix(v2) == unix(v1)"
     else: eq2="bytes_eq(v2, v1)"
+    if n in ("TextString", "ByteString"):
+        out[-1] = out[-1].replace("// The reader is left exactly", "// The value read is byte for byte the value extent wb[8:8+len(v)] of the written buffer, which holds the\n// bytes of v (stated as two equalities; together: x equals v).\n// The reader is left exactly")
     out.append(f'''//@ lemma lemmaWRW{n}
 //@   requires 0 <= tag && tag < 1<<24 && hdOK(in)
 //@   ensures err1 == nil ==> err2 == nil && {eq2} && bytes_eq(w1, w2)
